@@ -1122,8 +1122,12 @@ func (p *Parser) parseIntervalExpression() (*ast.IntervalExpression, error) {
 	if p.isNumericLiteral() {
 		numStr := p.currentToken.Literal
 		p.advance()
-		// Expect a unit keyword (DAY, HOUR, MINUTE, SECOND, MONTH, YEAR, WEEK, etc.)
+		// Expect a unit keyword (DAY, HOUR, MINUTE, SECOND, MONTH, YEAR, WEEK, etc.):
+		// a word, never punctuation, a semicolon or the end of input
 		unit := strings.ToUpper(p.currentToken.Literal)
+		if !isIntervalUnitWord(unit) || p.isType(models.TokenTypeEOF) || p.currentPos >= len(p.tokens) {
+			return nil, p.expectedError("interval unit")
+		}
 		p.advance()
 		return &ast.IntervalExpression{Value: numStr + " " + unit}, nil
 	}
@@ -1133,6 +1137,19 @@ func (p *Parser) parseIntervalExpression() (*ast.IntervalExpression, error) {
 		p.currentLocation(),
 		"Use INTERVAL '1 day' or INTERVAL 1 DAY syntax",
 	)
+}
+
+// isIntervalUnitWord reports whether s can be an interval unit: a non-empty word of letters and underscores.
+func isIntervalUnitWord(s string) bool {
+	if s == "" {
+		return false
+	}
+	for _, r := range s {
+		if !(r >= 'A' && r <= 'Z') && r != '_' {
+			return false
+		}
+	}
+	return true
 }
 
 // parseArrayConstructor parses PostgreSQL ARRAY constructor syntax.
